@@ -7,6 +7,12 @@ THEOREMS = ["ZwVerif.C09." + t for t in
              "arith_by_value", "unrelated_never_equal", "elfsym_common_equal", "elfsym_specific_differ", "bytes_refl",
              "bytes_eq_iff", "bytes_converse", "cst_copy_equal", "alias_table"]]
 
+# the whole order, for every comparable value (nested sequences to any depth, address sets, opaque DWARF values)
+ORDER_THEOREMS = ["ZwVerif.C09." + t for t in
+                  ["cmpAny_good", "cmpAny_good_depth", "total", "refl", "converse", "lt_trans", "eq_trans", "lt_asymm", "eq_congr",
+                   "seq_by_length", "cstO_good", "bytes_good", "cov_good", "listNat_good", "seqO_good", "seq_cmp_eq"]] + \
+    ["ZwVerif." + t for t in ["lexO_good", "cmpListO_good", "lexFull_good", "byNat_good"]]
+
 POOL = [
     # integers in arithmetic domains, equal and different numbers
     "0", "1", "3", "0x3", "03", "0b11", "-1", "0x1", "13", "0xd", "18446744073709551615", "-9223372036854775808",
@@ -33,7 +39,7 @@ INFIX = {"?lt": "<", "?eq": "==", "?gt": ">", "?le": "<=", "?ge": ">=", "?ne": "
 
 
 def run(ctx):
-    ctx.prove("ZwVerif.Props.C09", THEOREMS)
+    ctx.prove("ZwVerif.Props.C09", THEOREMS + ORDER_THEOREMS, extra_targets=["ZwVerif.Props.C09Order"])
     h = zwcorr.Harness(ctx)
     rng = ctx.rng
     pool = POOL
